@@ -15,6 +15,13 @@ import logging
 _env = {}
 
 
+class BaseBoom(BaseException):
+    """A BaseException that is not an Exception (like KeyboardInterrupt)."""
+
+
+BASES = {'K': KeyboardInterrupt, 'S': SystemExit, 'G': GeneratorExit, 'C': BaseBoom}
+
+
 def boot():
     if _env:
         return _env
@@ -51,7 +58,7 @@ class Runner:
                     v = super().next(inval)
                     res = 'v:' + runner.enc(v)
                     return v
-                except Exception as e:
+                except BaseException as e:
                     res = 'e:' + type(e).__name__
                     raise
                 finally:
@@ -149,6 +156,9 @@ class Runner:
             if op == 'raise':
                 run.xlog.append(['exit', i, 'raise'])
                 raise ValueError('x')
+            elif op == 'raiseb':
+                run.xlog.append(['exit', i, 'raiseb', BASES[a[1]].__name__])
+                raise BASES[a[1]]()
             elif op == 'rstop':
                 run.xlog.append(['exit', i, 'rstop'])
                 raise stm.StopStream
@@ -161,13 +171,16 @@ class Runner:
             elif op == 'nest' and a[2] == 'c':
                 try:
                     res = 'v:' + run.enc(run.R[a[1]].next(run.dec(a[3])))
-                except Exception as e:
+                except Exception as e:              # what user code writes: BaseExceptions pass through
                     res = 'e:' + type(e).__name__
+                except BaseException as e:
+                    run.xlog.append(['exit', i, 'prop', type(e).__name__])
+                    raise
                 run.log.append(f'nested({i},{a[1]},{res})')
             elif op == 'nest' and a[2] == 'p':
                 try:
                     v = run.R[a[1]].next(run.dec(a[3]))
-                except Exception as e:
+                except BaseException as e:
                     run.xlog.append(['exit', i, 'prop', type(e).__name__])
                     raise
                 run.log.append(f'nested({i},{a[1]},v:{run.enc(v)})')
@@ -210,7 +223,7 @@ class Runner:
                     except stm.StopStream as e:
                         run.log.append(f'nested({i},{a[1]},e:{type(e).__name__})')
                         continue
-                    except Exception as e:
+                    except BaseException as e:
                         run.xlog.append(['exit', i, 'prop', type(e).__name__])
                         raise
                     run.xlog.append(['exit', i, 'yield', run.enc(v)])
@@ -283,7 +296,7 @@ class Runner:
             if op == 'next':
                 try:
                     res = 'v:' + self.enc(self.R[x[1]].next(self.dec(x[2])))
-                except Exception as e:
+                except BaseException as e:          # incl. KeyboardInterrupt & co. raised by bodies
                     res = 'e:' + type(e).__name__
             elif op == 'tick':
                 sched = main._clock_scheduler
@@ -303,6 +316,9 @@ class Runner:
                     q.empty = empty_once
                     try:
                         sched.run()
+                    except BaseException as e:      # ClockTask._wakeup only swallows Exception
+                        if isinstance(e, Exception):
+                            raise
                     finally:
                         del q.empty
                     res = self.last_res
